@@ -116,6 +116,14 @@ Proof.
 Qed.
 Print Assumptions C05_F_C05a_refuted.
 
+(* ---- codec layer of C18: for every proper prefix of the stored byte string of an uncompressed array (raw or base64,
+        both header placements) the reader fails or returns fewer bytes than declared -- never the full array -------- *)
+Theorem C05_truncated_payload_rejected : forall compress bo h e hsep x p,
+  wf x -> lenN x < hbound h -> proper_prefix p (enc_array compress bo h None e hsep x) ->
+  truncated_ok x (read_uncompressed bo h e p).
+Proof. exact truncated_payload_rejected. Qed.
+Print Assumptions C05_truncated_payload_rejected.
+
 (* concrete, non-trivial instance: three arrays (lengths 5, 0, 9; block size 4 => 2 and 3 blocks, partial last
    block), big endian, UInt64 headers, appended base64; identity "compressor" *)
 Example C05_nonvacuous :
